@@ -155,6 +155,9 @@ class Result:
         self.assumptions = []
         self.notes = []
         self.findings = load_findings(pid)
+        if not os.environ.get('VERIF_KEEP_REPLAYS'):
+            import shutil
+            shutil.rmtree(REPLAYS / pid, ignore_errors=True)  # replays always describe the latest run
         self.exhaustive = None
         self.tlc_runs = []
 
